@@ -27,7 +27,7 @@ def harness_files():
         if f.endswith('.rs'):
             txt = open(os.path.join(KANI_DIR, f)).read()
             m = re.search(r'(?m)^//@target (\S+)', txt)
-            names = re.findall(r'(?m)^\s*#\[kani::proof(?:_for_contract\([^)]*\))?\]\s*(?:\n\s*#\[[^\n]*\]\s*)*\n\s*(?:pub )?fn (\w+)', txt)
+            names = re.findall(r'#\[kani::proof(?:_for_contract\([^)]*\))?\](?:\s*#\[[^\]]*\])*\s*(?:pub )?fn (\w+)', txt)
             res[f[:-3]] = {'target': m.group(1), 'text': txt, 'harnesses': names}
     return res
 
